@@ -23,5 +23,10 @@ I_C20_SamePayload == Judge("C20_SamePayload",
    (R.kind = "verb" /\ R.required /\ ~R.cli.raised /\ ~R.api.raised) => R.cli.payload = R.api.payload)
 \* a store created by the client opens through the API with the same properties, and back
 I_C20_SameProps == Judge("C20_SameProps", R.kind = "props" => R.ok)
+\* -chs on a directory that already holds a store: accepted / refused exactly like the
+\* constructor, and a refusal touches nothing
+I_C20_CreateSameEffect == Judge("C20_CreateSameEffect",
+   R.kind = "chs" => /\ R.cli.raised = R.api.raised /\ R.cli.tree = R.api.tree
+                     /\ (R.api.raised => R.cli.tree = R.before))
 AllJudged == PrintT("JUDGED " \o ToString(TLCGet("stats").distinct - 1) \o " OF " \o ToString(N))
 =============================================================================
